@@ -162,8 +162,9 @@ Definition notify_removal (q : list (bytes * N)) (expired : list (bytes * bytes)
 (* ---- resolve_updated_instances -------------------------------------------------------------------- *)
 
 (* the loop over the PTR records of one browsed ty_domain.
-   Accumulators: events, resolved, unresolved, removed pairs; `rset` is self.resolved, which the
-   Rust mutates inside the loop. *)
+   Accumulators: events, resolved, unresolved, removed pairs; `rset` is self.resolved, read only
+   inside the loop: an instance that became invalid is reported under EVERY browsed name
+   pointing to it and leaves `resolved` after the loop (no_longer_resolved). *)
 Fixpoint ru_ptrs (c : cache) (now : N) (ty : bytes) (ch : N) (updated : list bytes)
     (ptrs : bucket) (rset : list bytes)
     : list out * list bytes * list bytes * list (bytes * bytes) * list bytes :=
@@ -178,7 +179,7 @@ Fixpoint ru_ptrs (c : cache) (now : N) (ty : bytes) (ch : N) (updated : list byt
         (OEvt ch (EResolved r) :: o, inst :: res, unres, rem, rset')
       else
         let was := mem inst rset in
-        let '(o, res, unres, rem, rset') := ru_ptrs c now ty ch updated rest (set_remove inst rset) in
+        let '(o, res, unres, rem, rset') := ru_ptrs c now ty ch updated rest rset in
         (o, res, inst :: unres, (if was then [(ty, inst)] else []) ++ rem, rset')
     else ru_ptrs c now ty ch updated rest rset
   end.
@@ -204,7 +205,8 @@ Definition resolve_updated (s : st) (now : N) (updated : list bytes) : st * list
   | _ =>
     let '(o, res, unres, rem, rset) :=
       ru_types (s_cache s) now (s_q s) updated (c_ptr (s_cache s)) (s_resolved s) in
-    let s1 := mkSt (s_cache s) (s_q s) (s_pending s) rset (s_retrans s) in
+    let s1 := mkSt (s_cache s) (s_q s) (s_pending s)
+                   (fold_left (fun l i => set_remove i l) (map snd rem) rset) (s_retrans s) in
     let s2 := fold_left mark_resolved (dedup res) s1 in
     let s3 := fold_left (fun s i => add_pending s now i) (dedup unres) s2 in
     (s3, o ++ notify_removal (s_q s) rem)
